@@ -8,6 +8,7 @@ Oracle: (real binary only) dump -> reload -> dump is byte-identical and silent; 
         same dump; formatted bytes of sample inputs are identical under the original and the reloaded config.
 """
 import os
+import shutil
 import subprocess
 
 from vlib import common, cfgcheck as cc
@@ -121,6 +122,59 @@ def _format(exe, cfgdir, cfgname, src, sets=()):
     r = subprocess.run(argv + [b"-f", os.fsencode(src)], cwd=cfgdir, stdin=subprocess.DEVNULL,
                        stdout=subprocess.PIPE, stderr=subprocess.PIPE, timeout=60)
     return r.returncode, r.stdout
+
+
+def _argorder(ctx, R, ok_cases, rng):
+    """the meaning of `--set name=value` does not depend on where it stands on the command line: the --update-config dump is the same
+    for every order of the arguments, also with other option words (-q, -l L, --type T, -L 0, --no-backup) between them"""
+    sub = [(c, r) for c, r in ok_cases if c.sets][:120]
+    jobs = []
+    for c, r in sub:
+        types = [b"CliT%d" % rng.randrange(100) for _ in range(rng.choice([1, 1, 2]))]
+        blocks = [[b"-c", c.main]] + [[b"--set", s] for s in c.sets] + [[b"--type", t] for t in types]
+        blocks += rng.sample([[b"-q"], [b"-l", b"CPP"], [b"--no-backup"], [b"-L", b"0"]], rng.randrange(0, 3))
+        canon = [x for b in [[b"-c", c.main]] + [[b"--set", s] for s in c.sets] + [[b"--type", t] for t in types] for x in b] + [b"--update-config"]
+        jobs.append((c, canon, True))
+        for _ in range(3):
+            # keep the relative order of the --set words (later ones win), move everything else freely
+            others = [b for b in blocks if b[0] != b"--set"] + [[b"--update-config"]]
+            rng.shuffle(others)
+            sets = [b for b in blocks if b[0] == b"--set"]
+            merged = others[:]
+            pos = sorted(rng.randrange(0, len(merged) + 1) for _ in sets)
+            for k, (p, sb) in enumerate(zip(pos, sets)):
+                merged.insert(p + k, sb)
+            jobs.append((c, [x for b in merged for x in b], False))
+
+    def one(j):
+        c, argv, _ = j
+        d = R.newdir()
+        for n, body in c.files.items():
+            p = os.path.join(os.fsencode(d), n)
+            os.makedirs(os.path.dirname(p), exist_ok=True)
+            open(p, "wb").write(body.replace(b"@ABS@", os.fsencode(d)))
+        r = subprocess.run([os.fsencode(R.exe)] + argv, cwd=d, stdin=subprocess.DEVNULL, stdout=subprocess.PIPE, stderr=subprocess.PIPE, timeout=60)
+        shutil.rmtree(d, ignore_errors=True)
+        return r.returncode, r.stdout
+    res = common.pmap(one, jobs)
+    bad = 0
+    ref = None
+    for (c, argv, is_ref), (rc, out) in zip(jobs, res):
+        if is_ref:
+            ref = (rc, out, argv)
+            continue
+        ctx.case(b"argorder:" + b" ".join(argv) + c.request().encode()[:200], nontrivial=True)
+        if (rc, out) != ref[:2]:
+            bad += 1
+            if bad <= 3:
+                dl = [(a, b) for a, b in zip(ref[1].split(b"\n"), out.split(b"\n")) if a != b][:3]
+                ctx.violation("the order of the command-line arguments changes the configuration: %s gives another --update-config dump than %s "
+                              "(first differing lines %s)" % ([a.decode("latin1") for a in argv], [a.decode("latin1") for a in ref[2]],
+                                                             [(a.decode("latin1"), b.decode("latin1")) for a, b in dl]),
+                              dict(c.replay(), argv=["uncrustify"] + [a.decode("latin1") for a in argv],
+                                   reference_argv=["uncrustify"] + [a.decode("latin1") for a in ref[2]]), key=None, found_input=True)
+    ctx.oblige("oracle: the --update-config dump does not depend on the order of --set / --type / -c / -q / -l on the command line (%d orders of %d configurations)"
+               % (len(jobs) - len(sub), len(sub)), bad == 0, "oracle", "%d differing" % bad)
 
 
 def _behaviour(ctx, R, ok_cases, n):
@@ -261,6 +315,7 @@ def _run(ctx, T, R, M):
     ctx.oblige("oracle mixed: --update-config-with-doc output reloads to the same dump (%d configurations)" % rt_mix[2],
                rt_mix[3] == 0, "oracle", "%d failures" % rt_mix[3])
 
+    _argorder(ctx, R, ok_mixed, rng)
     # --- (4) behavioural equivalence on sample inputs
     pick = ok_mixed[:(300 if thorough else 40)] + ok_all[:(60 if thorough else 8)]
     _behaviour(ctx, R, pick, len(pick))
